@@ -14,7 +14,7 @@ from atsim.potentials import Potential, EAMPotential
 from atsim.potentials.referencedata._data import reference_data as BUILTIN
 
 REAL_ELS = ["Al", "Cu", "Ni", "Fe", "Ag", "U", "Zr", "Mg", "Au", "Pt", "Ti", "Nb"]
-FAKE_ELS = ["Xx", "Q1", "Zz2"]
+FAKE_ELS = ["Xx", "Q1", "Zz2", "Ni_core1", "Fe_shel2"]      # (8 characters is the longest label DL_POLY takes: fixed-width headers must not fuse them - seed C04_7)
 LATTICES = ["fcc", "bcc", "hcp", "diamond"]
 
 
@@ -46,7 +46,7 @@ def flt(s):
 
 
 # ---------------------------------------------------------------------------------------------------------------
-def gen_model(rng, fs, potable, nmax=4, allow_undeclared=True, kmax=4, nr_max=12, nrho_max=9):
+def gen_model(rng, fs, potable, nmax=4, allow_undeclared=True, kmax=4, nr_max=12, nrho_max=9, fine=False):
     """A random EAM model.
 
     returns dict(fs, els=[sp...], embed={sp:fid|None}, dens={sp:fid|None} | {a:{b:fid|None}}, pairs=[(a,b,fid)...] in declaration order,
@@ -59,6 +59,10 @@ def gen_model(rng, fs, potable, nmax=4, allow_undeclared=True, kmax=4, nr_max=12
     nr = rng.randint(2, nr_max)
     nrho = rng.randint(2, nrho_max)
     kr = rng.randint(1, 3)
+    if fine and rng.random() < 0.3:
+        # steps that need more than six decimals (1/128 .. 1/4096): a header that rounds them to `%f` no longer declares the grid tabulated (seed C03_8);
+        # only for formats that print 16 significant digits
+        k, kr = rng.randint(7, 12), rng.randint(7, 12)
     m = dict(fs=fs, els=els, nr=nr, nrho=nrho, cut=Fr(nr - 1, 2 ** k), cutrho=Fr(nrho - 1, 2 ** kr))
     und = allow_undeclared and rng.random() < 0.4
     m["embed"] = {e: next(fid) for e in els}
@@ -262,7 +266,8 @@ def setfl_tokens(text, fs, adp=False):
         for v in vals:
             if len(v.split()) != 1:
                 raise FormatError("line %r in %s is not a single number" % (v, what))
-        return [dec(v.strip()) for v in vals]
+        # `% 20.16e` prints 17 significant digits: the text denotes exactly one double (round trip), which is the number the writer held - not the decimal text itself
+        return [flt(v.strip()) for v in vals]
 
     elements = []
     for ei in range(n):
